@@ -124,6 +124,7 @@ func MustReach(labels ...string) {}
 func MapOrderAny()               {}
 func AllocCap(n int)             {}
 func Budget(n int)               {}
+func DecisionBudget(n int)       {}
 
 // Try runs f and reports whether it panicked (interpreted symbolically as ordinary Go).
 func Try(f func()) (panicked bool) {
